@@ -93,7 +93,7 @@ CHECKS = {
     "C06": dict(
         category="model_checking",
         technique="bounded-exhaustive enumeration of (grammar, input, request kind) with a state-admission budget as bounded-liveness oracle",
-        text="Every (grammar, word) of the family is parsed as whole forest and in prefix mode under a Column.add admission budget of 30 000, growing six-fold per input symbol beyond length 4 (quick-tier requests need < 5 000; the measured maximum is in the evidence). A request exceeding the budget or 30 s is reported as non-terminating. Twelve templates of computed repetitions ({int(<n>)}) in recursive, nested, starred and nullable contexts x every word up to length 5 (thorough 7) go through the same requests.",
+        text="Every (grammar, word) of the family is parsed as whole forest and in prefix mode under a Column.add admission budget of 30 000, growing six-fold per input symbol beyond length 4 (quick-tier requests need < 5 000; the measured maximum is in the evidence). A request exceeding the budget or 30 s is reported as non-terminating. Twelve templates of computed repetitions ({int(<n>)}) in recursive, nested, starred and nullable contexts x every word up to length 5 (thorough 7) go through the same requests. First-tree requests (Grammar.parse) are made separately for every member word of the grammars with a derivation cycle, where the forest request is a recorded non-terminating case.",
         note="Bounded liveness: a budget overrun is taken as divergence (margin reported). The nullable-body-under-*/+ divergence was repaired in /repo; divergence on grammars with a derivation cycle (a symbol derives itself without consuming input) is a recorded known finding.",
         design="4 C06",
     ),
